@@ -248,3 +248,9 @@ def shrink(c):
     if c["op"] == "save":
         return
     yield from dispatch.shrink(c)
+
+
+# living-object histories (harness/living.py): on ONE set of living objects every copy-returning operation, query and failed
+# mutation must leave receiver and arguments observably unchanged; successful mutations change their receiver only
+import living  # noqa: E402
+living.install(globals(), judge_ops=(), unchanged=True, rate=0.1)
